@@ -20,10 +20,21 @@ package utils
 
 // ---- C20 / C09: a certificate is accepted for an ID exactly when that ID is one of the names read from it
 
+// reading names back: only subjectAltName extensions are looked at, only otherName entries (tag 0) whose type is the
+// receptor OID contribute, each contributes exactly the string decoded from its value, and an undecodable entry
+// makes the whole read fail (no partial list)
 //@ func ReceptorNames
-//@   trusted
+//@   tags C20 C09
 //@   modifies nothing
-//@   ensures result.1 != nil ==> result.0 == nil
+//@   site call Unmarshal@1 SANVALUE: [C20] requires arg0 == extension.Value && asn1.OIDEqual(extension.Id, OIDSubjectAltName)
+//@   site call UnmarshalWithParams OTHERNAME: [C20] requires arg0 == value.FullBytes && value.Tag == 0 && arg2 == "tag:0"
+//@   site call Unmarshal@2 NAMEVALUE: [C20] requires arg0 == on.Value.Bytes && asn1.OIDEqual(on.ID, OIDReceptorName)
+//@   site call append@2 DECODED: [C20] requires arg1[0] == name && lastcall("Unmarshal", 1) == nil
+//@   ensures NOPARTIAL: [C20] result.1 != nil ==> result.0 == nil
+//@   loop range extensions
+//@     invariant OWNLIST: fresh(names)
+//@   loop range values
+//@     invariant OWNLIST2: fresh(names)
 
 //@ func ParseReceptorNamesFromCert
 //@   tags C20 C09
